@@ -207,6 +207,19 @@ PROPS = {
                                                 "booth/booth.w5.recode", "booth/booth.w7.recode", "g1.table/table.entry", "g1.table/table.row-base"]})],
         assumptions=["BN.tla: Fp12 as the polynomial ring Fp[w]/(w^12+2); tower elements are judged through the embedding u = w^6, v = w^3"],
     ),
+    "C20": dict(
+        level="fault_enumeration",
+        rule="events = calls of every byte-consuming entry point (SM2 verify / decrypt raw+ASN.1 / key and point decoders bytes+hex+DER+PEM, SM4 construction / block / mode decryption, SM9 decrypt / "
+             "verify, hash-to-range and KDF helpers) on every length with zero / 0xFF / random content, truncations and single-byte corruptions of valid encodings, boundary keys; "
+             "distinct = distinct (entry point, input); non-trivial = all",
+        models=[dict(module="MC_SignLive", about="toy group: signing terminates (liveness under a fair source) for every key in [1, n-2] and every digest; signatures in range"),
+                dict(module="MC_SignLive", cfg="MC_SignLive_neg", expect="violation", about="negative: a constructor admitting d = n-1 must yield the non-terminating lasso")],
+        stages=[dict(suite="api", trace="TraceApi",
+                     required_classes={"both": ["sm2.verify/sm2.verify.content.len0", "sm2.decrypt.uncomp/sm2.decrypt.uncomp.content.len<98", "sm4.new/sm4.new.content.len<16", "sm4.cbc_dec/sm4.cbc_dec.content.len0",
+                                                "sm9.decrypt/sm9.decrypt.content.len<98", "sm9.from_hash/sm9.from_hash.content.len<40", "sm9.from_hash/sm9.from_hash.content.len<98", "sm2.pkcs8_der/sm2.pkcs8_der.corrupted.len>=98",
+                                                "sm2.sign_with_key/sm2.sign_with_key.d=n-1.len<33", "sm9.verify/sm9.verify.arbitrary.len<33"]})],
+        assumptions=["Api.tla: total outcome function; length rules of the standards"],
+    ),
 }
 
 # what MANIFEST.json says about each claimed check
@@ -361,7 +374,15 @@ MANIFEST_TEXT["C17"] = dict(
     note="Trusted: as C09 (Annex key exchange value as ASSUME in the thorough anchor).",
     technique="TLA+ trace validation with TLC at real parameters (exact key differential per step)",
 )
+MANIFEST_TEXT["C20"] = dict(
+    text="Api.tla makes every byte-consuming entry point a total function into {ok, err} (no panic / timeout outcome; length rules where the standards fix them). The driver calls each entry point "
+         "(SM2 verify, raw / ASN.1 decrypt, point and key decoders for bytes, hex, DER, PEM; SM4 construction, block and mode decryption, IV and key arguments; SM9 decrypt, verify, hash-to-range, "
+         "H1, both KDFs) with every length 0..200 (quick: 0..70 and selected) x zero / 0xFF / random content, every truncation and single-byte corruption of valid encodings, boundary private keys "
+         "0, 1, n-2, n-1, n, n+1, 2^256-1 followed by sign/verify and encrypt/decrypt, over-long identities, arbitrary (h, S) -- each under panic capture and a 20 s watchdog on a worker thread, "
+         "release build with overflow checks. E1: signing terminates under a fair source for every key the constructor admits (liveness, toy group), with the d = n-1 lasso as negative control.",
+    note="Trusted: the harness's panic capture / watchdog. One known finding (mod_n_from_hash on inputs shorter than 40 bytes) is listed in known_findings.json.",
+    technique="fault enumeration with TLA+ trace validation (total outcome specification) + TLC liveness check of the signing retry loop",
+)
 
 NOT_APPLICABLE = {
-    "C20": "machinery for this property is not built yet in this round (specification module in progress); not claimed until its check is sound",
 }
